@@ -745,7 +745,7 @@ CORPUS = {
 
 
 def run_property(prop, tier, theorems, profile, nscripts, nontrivial_rule, nontrivial_counter, theorem_hint, stated_not_proved=(),
-                 extra_stream=None, reentry_eps=None):
+                 extra_stream=None, reentry_eps=None, reentry_scenarios=None):
     chk = core.Check(prop, tier)
     chk.obligations(theorems, stated_not_proved)
     rnd = core.rng(prop)
@@ -763,7 +763,7 @@ def run_property(prop, tier, theorems, profile, nscripts, nontrivial_rule, nontr
             fails.append(dict(mode=m, script=lines[s:e], message=msg, observed=outs[idx], index=idx))
     if reentry_eps:
         from . import worldcommon
-        rf = worldcommon.reentry_stage(chk, reentry_eps)
+        rf = worldcommon.reentry_stage(chk, reentry_eps, *([reentry_scenarios] if reentry_scenarios else []))
         worldcommon.report_reentry(chk, rf)
         fails += rf
     if extra_stream is not None:
